@@ -1208,21 +1208,36 @@ func (P) Generate(g0 *core.Gen) {
 			s := newSim(r, pol, int(r.Pick(1, 2)))
 			s.baseChain(s.maturity + 2 + r.Intn(3))
 			s.scenarioBody(int(r.Pick(10, 20, 30)), false)
-			seq := s.line()
-			// mark up to four (submission, writer) pairs
+			// mark up to five (submission, writer) pairs; half of the time the competing writer is made to
+			// interfere as much as it can: it removes the very transaction being submitted, with redeemers
 			ops := append([]string(nil), s.ops...)
-			var out []string
+			var out, plain []string
 			marks := 0
 			for i := 0; i < len(ops); i++ {
-				if marks < 4 && i+1 < len(ops) && (ops[i][0] == 'P' || ops[i][0] == 'A') &&
-					strings.ContainsRune("PARDXGO", rune(ops[i+1][0])) && r.Chance(40, 100) {
-					out = append(out, "S", ops[i], ops[i+1])
-					i++
-					marks++
-					continue
+				if marks < 5 && (ops[i][0] == 'P' || ops[i][0] == 'A') && r.Chance(40, 100) {
+					second := ""
+					if r.Bool() {
+						second = "R:" + strings.Split(ops[i], ":")[1] + ":1"
+					} else if i+1 < len(ops) && strings.ContainsRune("PARDXGO", rune(ops[i+1][0])) {
+						second = ops[i+1]
+						i++
+					}
+					if second != "" {
+						first := ops[i]
+						if second == ops[i] { // consumed the following op
+							first = ops[i-1]
+						}
+						out = append(out, "S", first, second)
+						plain = append(plain, first, second)
+						marks++
+						continue
+					}
 				}
 				out = append(out, ops[i])
+				plain = append(plain, ops[i])
 			}
+			s.ops = plain
+			seq := s.line()
 			s.ops = out
 			cands[k] = cand{seq: seq, pin: s.line(), nt: marks > 0 && len(s.defs) >= 3}
 		}
